@@ -2715,8 +2715,9 @@ impl CanonicalizeContext {
 				} else {
 					let child = as_element(child);
 					let child_name = name(&child);
-					if !(child_name == "msub" || child_name == "msup" || child_name == "msubsup") {
-						break;
+					if !(child_name == "msub" || child_name == "msup" || child_name == "msubsup") ||
+					   !CanonicalizeContext::is_empty_element(as_element(child.children()[0])) {
+						break;		// only scripts with an empty base can be skipped -- anything else between the scripts and the base would be lost
 					}
 				}
 			}
